@@ -43,6 +43,13 @@ def gen(c):
         for fn in ('pbkdf2', 'pbkdf2_hmac'): add('ct.call fn=%s k=%s n=%s count=%d outlen=%d' % (fn, key(rng.choice([0, 8, 70])), hx(pattern(rng, 8)), cnt, rng.choice([20, 40])), 3.0, (fn, cnt))
     for ol in (1, 8, 40):
         add('ct.call fn=prng k=%s m=%s outlen=%d' % (key(32), key(rng.choice([0, 3, 8])), ol), 2.0, ('prng', ol))
+    # C++ cipher classes: key replaced by an equal key, by one sharing a 15-byte prefix, by an unrelated one
+    for cls, klen in (('aead128', 16), ('aead128a', 16), ('aead80pq', 20), ('siv128', 16), ('siv128a', 16), ('siv80pq', 20), ('isap128a', 16),
+                      ('aead128_masked', 16), ('aead128a_masked', 16), ('aead80pq_masked', 20)) + ((('isap128', 16), ('isap80pq', 20)) if th else ()):
+        k1 = pattern(rng, klen, 'rand')
+        for k2 in (k1, k1[:klen - 1] + bytes([k1[-1] ^ 1]), bytes([k1[0] ^ 0x80]) + k1[1:], pattern(rng, klen, 'rand')):
+            add('ct.call fn=cpp:%s k=%s x=%s n=%s ad=%s m=%s tape=rand tapedata=%s' % (cls, hx(k1), hx(k2), hx(pattern(rng, 16)), hx(pattern(rng, 2)), key(5), hx(pattern(rng, 8, 'rand'))),
+                3.0 if cls.startswith('isap') else 1.0, ('cpp', cls, k2 == k1))
     # a seed saved in non-volatile storage is key material: all-zero / all-ff / leading-run patterns included
     for pat in (bytes(32), bytes([255] * 32), bytes([0] * 5 + [7] * 27), bytes([255] * 9 + [1] * 23), pattern(rng, 32, 'rand'), bytes([0]) + pattern(rng, 31, 'rand')):
         add('ct.call fn=prng_seed k=%s m=%s outlen=%d' % (key(32), hx(pat), rng.choice([8, 40])), 2.0, ('prng_seed', pat[:2].hex()))
